@@ -181,9 +181,20 @@ int main(int argc, char **argv)
     gen::type_strings(std::string(gen::VALUE_TAGS) + "[]", 0, 3, types);
     size_t n_full = types.size();
     gen::type_strings("ihsbTm[]", 4, T ? 6 : 5, types);
+    if(T) {
+        // all well-nested strings of length 4 over all 17 symbols
+        gen::type_strings(std::string(gen::VALUE_TAGS) + "[]", 4, 4, types);
+        // long type strings (8, 16, 40 tags): every rotation of the 15 value tags, plain and wrapped in array brackets
+        const std::string cyc = gen::VALUE_TAGS;
+        for(size_t L : {8u, 16u, 40u}) for(size_t off = 0; off < cyc.size(); ++off) {
+            std::string t; for(size_t k = 0; k < L; ++k) t += cyc[(off + k) % cyc.size()];
+            types.push_back(t);
+            std::string w = t; w[0] = '['; w[L / 2] = ']'; w[L / 2 + 1] = '['; w[L - 1] = ']'; types.push_back(w);
+        }
+    }
     const size_t max_addr = T ? 64 : 9;
     vp::bound("type_strings_len0-3_all17symbols", (long long)n_full);
-    vp::bound("type_strings_len4+_over_ihsbTm[]", (long long)(types.size() - n_full));
+    vp::bound("type_strings_len4+", std::to_string(types.size() - n_full) + (T ? " (length 4..6 over {i h s b T m [ ]}, all of length 4 over the 17 symbols, rotations of the 15 value tags at lengths 8/16/40 plain and bracketed)" : " (length 4..5 over {i h s b T m [ ]})"));
     vp::bound("address_lengths", "1.." + std::to_string(max_addr));
     vp::bound("value_vectors", "full cross product for <=2 data tags, each-used + all-last beyond");
 
